@@ -14,7 +14,7 @@ META = dict(
          "[me|main|name] [of framer ..]`, `of actor [me|name] [of frame ..]`, inline framer./frame./actor. forms, dot-paths with a "
          "relation) x 17 verb slots (put, copy src/dst, inc dst/src, set dst/src, go-if state/goal/boolean/updated, bid at, do "
          "via/per/for/from with a named doer) x 4 placements (first frame, nested frame, plain auxiliary, named clone) x via-inode "
-         "configurations on framer / frame / nested frame / aux / clone / moot (absolute, relative, me-relative; 4 quick, 7 "
+         "configurations on framer / frame / nested frame / aux / clone / moot (absolute, relative, me-relative; 3 quick, 7 "
          "thorough).  Every program is rebuilt under each of the 11 single renamings (4 framers, 5 frames, clone tag, doer name -> "
          "fresh name).  Oracle 1 (metamorphic): the renamed build's map act-parameter -> resolved share/node name and its store "
          "share-name list equal the original's with exactly the renamed segment substituted (build refusals must agree too).  "
@@ -31,7 +31,7 @@ FRAMERS = ["wfa", "wfb", "wfc", "wfd"]
 FRAMES = ["hra", "hrb", "hrc", "hrd", "hre"]
 TAG = "tgc"
 ACTOR = "dxa"
-FRESH = "zzq"
+FRESH = "zzqlong"
 ENTITIES = FRAMERS + FRAMES + [TAG, ACTOR]
 
 PLACEMENTS = ["top", "nested", "aux", "clone"]
@@ -48,8 +48,8 @@ CTX = {
 FORMS = [
     ("abs",            ".ab.x",                               [],                "ip"),
     ("plain",          "pl.x",                                [],                "ipd"),
-    ("of-root",        "x of root",                           [],                ""),
-    ("plain-of-root",  "pl.x of root",                        [],                ""),
+    ("of-root",        "x of root",                           [],                "d"),
+    ("plain-of-root",  "pl.x of root",                        [],                "d"),
     ("of-me",          "x of me",                             [],                ""),
     ("me-inline",      "me.x",                                [],                "ip"),
     ("of-framer",      "x of framer",                         ["F"],             ""),
@@ -103,9 +103,9 @@ SLOTS = [
 # MV moot framer wfd
 ICFGS = [
     ("I0", dict()),
-    ("I1", dict(FV="top")),
-    ("I2", dict(RV="pop", NV="sub")),
+    ("I1", dict(FV="top", RV="pop", NV="me.n")),
     ("I4", dict(CV="me.ca", AV="me.ac", MV="mm")),
+    ("I2", dict(RV="pop", NV="sub")),
     ("I3", dict(FV=".top.", RV="me.q")),
     ("I5", dict(FV="top", RV="pop", NV="me.n", CV="cv", AV="av", MV="me.m")),
     ("I6", dict(FV="top.", CV=".cabs.", AV=".aabs", NV=".nabs.")),
@@ -113,7 +113,7 @@ ICFGS = [
 
 
 def icfgs(tier):
-    return ICFGS if tier == "thorough" else ICFGS[:4]
+    return ICFGS if tier == "thorough" else ICFGS[:3]
 
 
 def via(cfg, k):
@@ -259,9 +259,9 @@ def check_case(real, addr, p, case):
             for key, path in targets:
                 got = names_in(path)
                 exp = set(want)
-                if "d" in form[3] and slot[0] == "do-per":
-                    # relative ioinit path: the doer's inode is prepended; with no via anywhere the documented default
-                    # inode framer.me.frame.me.actor.me applies
+                if "d" in form[3] and slot[0] in ("do-per", "do-for"):
+                    # relative ioinit path (`per` value / `for` source): the doer's inode is prepended; with no via anywhere
+                    # the documented default inode framer.me.frame.me.actor.me applies
                     if cname == "I0":
                         exp = set(CTX[placement]["F"]) | set(CTX[placement]["R"]) | set(slot[2])
                     elif path.startswith("framer."):
@@ -311,7 +311,7 @@ def check_case(real, addr, p, case):
         changed = [k for k, v in orig[1].items() if exp_refs[k] != v[0]]
         p.outcome("rename %s: %s" % ("framer" if old in FRAMERS else "frame" if old in FRAMES else "tag" if old == TAG else "actor",
                                      "paths renamed" if changed else "no path affected"))
-    if p.evaluations % 997 < 13 and orig[0] == "ok":
+    if orig[0] == "ok" and (len(p.keys) % 211) == 1:
         p.sample(dict(line=line, placement=placement, via=cname,
                       resolved=sorted(set(v[0] for v in orig[1].values() if v[1] == line))[:4]))
 
@@ -351,7 +351,8 @@ def selftest():
                 raise core.BrokenCheck("name %s occurs inside another word" % n)
     if FRESH in text:
         raise core.BrokenCheck("fresh name occurs in the script")
-    if rename_path("framer.wfa_tgc.frame.hre.x", "wfa", "zzq") != "framer.zzq_tgc.frame.hre.x":
+    if rename_path("framer.wfa_tgc.frame.hre.x", "wfa", "zzq") != "framer.zzq_tgc.frame.hre.x" or \
+            rename_path("framer.wfab.wfa.x_wfa", "wfa", "q") != "framer.wfab.q.x_q":
         raise core.BrokenCheck("rename_path self-test")
     if names_in("framer.wfa_tgc.frame.hre.actor.dxa.x") != {"wfa", "tgc", "hre", "dxa"}:
         raise core.BrokenCheck("names_in self-test")
